@@ -290,6 +290,10 @@ inductive Outcome where
 structure Cfg where
   maxRetries : Int            -- `reportserver.UseCaseOptions.MaxProbeRetries`
 
+/-- a use case has run: its error is the handler's error, otherwise the handler answers `ok` -/
+def finish (r : AbsState × Except UC.UErr Unit) (ok : Outcome) : AbsState × Outcome :=
+  (r.1, match r.2 with | .ok _ => ok | .error _ => .err)
+
 /-- `heartbeat.Handler.Handle` -/
 def handleHeartbeat (cfg : Cfg) (st : AbsState) (srcIp srcPort : Nat) (payload : Bytes) (now : Int) : AbsState × Outcome :=
   match parseInstanceID payload with
@@ -304,22 +308,17 @@ def handleHeartbeat (cfg : Cfg) (st : AbsState) (srcIp srcPort : Nat) (payload :
         | none => (st, .err)
         | some (a, qp) =>
           if fields.get? kStatechanged = some [0x32] then
-            match (UC.remove (idNat id) a).run st now with
-            | (st', .ok _) => (st', .silent)
-            | (st', .error _) => (st', .err)
+            finish ((UC.remove (idNat id) a).run st now) .silent
           else
-            match (UC.report zeroInfo cfg.maxRetries ⟨a, qp, idNat id, infoOf fields⟩).run st now with
-            | (st', .ok _) => (st', .reply (heartbeatReply id srcIp srcPort))
-            | (st', .error _) => (st', .err)
+            finish ((UC.report zeroInfo cfg.maxRetries ⟨a, qp, idNat id, infoOf fields⟩).run st now)
+              (.reply (heartbeatReply id srcIp srcPort))
 
 /-- `keepalive.Handler.Handle` -/
 def handleKeepalive (st : AbsState) (srcIp : Nat) (payload : Bytes) (now : Int) : AbsState × Outcome :=
   match parseInstanceID payload with
   | none => (st, .err)
   | some (id, _) =>
-    match (UC.renew (idNat id) srcIp).run st now with
-    | (st', .ok _) => (st', .silent)
-    | (st', .error _) => (st', .err)
+    finish ((UC.renew (idNat id) srcIp).run st now) .silent
 
 /-- `challenge.Handler.Handle` -/
 def handleChallenge (payload : Bytes) : Outcome :=
